@@ -6,7 +6,7 @@ TECH="bounded symbolic execution of go/ssa + SMT (z3 5.1 incremental; cvc5/z3 po
 NOTE="Trusted: go/ssa as IR of the current tree, the executor's instruction semantics and listed intrinsics, the SMT solvers, the reference models written in the harness files. Bounds are listed in the evidence; solver unknown/time-out is never success."
 claims={
  "C01":("For symbolic well-formed PE32/PE32+ images (every byte, the length, SizeOfHeaders, all section offsets/sizes in any order, certificate directory and trailing data symbolic) the library digest equals SHA-256 of the byte string that steps 3-14 of the Authenticode specification define; plus the io.ReaderAt contract of the positional multi-reader for all offsets/lengths.","2 C01"),
- "C03":("For symbolic well-formed images and symbolic signature bytes/length, AppendSignature+Bytes yields exactly the specified signed file (original bytes, padding, table, WIN_CERTIFICATE header, directory entry spanning to end of file), also after several in-memory appends.","2 C03"),
+ "C03":("For symbolic well-formed images and symbolic signature bytes/length, AppendSignature+Bytes yields exactly the specified signed file (original bytes, padding, table, WIN_CERTIFICATE header, directory entry spanning to end of file), also after several in-memory appends; on the fixture image: sign / re-parse / re-sign histories verify for exactly the signers and keep the digest.","2 C03"),
  "C07":("All well-formed signature-database streams up to the byte bound (every byte and the length symbolic, restricted only by a reference recogniser of the UEFI layout) are accepted, decode to exactly the specified lists/owners/data, and re-encode to the same bytes (Bytes and Marshal/Unmarshal routes).","2 C07"),
  "C08":("For every byte string up to the bound (every byte and the length symbolic): if decoding succeeds, the lists tile the whole input, satisfy the EFI_SIGNATURE_LIST size equations and hold exactly the input bytes at the specified offsets; decided by SMT on every path.","2 C08"),
  "C09":("One inductive step from an arbitrary valid database state (symbolic owners/data, enumerated shapes): append and remove change the ordered entry collection exactly as specified (PEM stored as DER, errors change nothing, emptied list dropped), membership queries agree with the collection, and the representation invariant and encoded length hold afterwards.","2 C09"),
@@ -33,7 +33,7 @@ partial={
  "C05":" The library's own parse/verify of the result is covered by C04's harnesses only in unit form; third-party verifiers are outside.",
  "C15":" Reader failures after parsing (Hash/Verify) cannot occur: the parsed object reads from memory.",
  "C19":" Real goroutine schedules are not explored; Verify is not included.",
- "C03":" Re-parse digest equality, embedded-digest and verify-after-sign parts of the statement are not decided by this check.",
+ "C03":" Re-parse digest, embedded digest and verify-after-sign are decided on the shipped test image (signature model), layout on symbolic images.",
  "C01":" Per-position coverage is decided on the fixture image; for symbolic images it follows from the stream equality.",
  "C14":" PEM key/certificate readers are not covered (encoding/pem, crypto/x509 not interpreted); the static enumeration of exit call sites is not yet part of this check.",
 }
